@@ -47,12 +47,43 @@ type Op struct {
 	Fs     []int   `json:"fs,omitempty"`
 }
 
-type in struct {
-	Ops            []Op `json:"ops"`
-	AllowUnguarded bool `json:"allow_unguarded,omitempty"` // hand-checked terminating corpus entries only
+// IOp is one step of a host that opens the libraries itself (lua.Options{SkipOpenLibs: true})
+type IOp struct {
+	Op     string  `json:"op"` // openbase openpackage openlib register preload
+	N      int     `json:"n,omitempty"`
+	Fs     []int   `json:"fs,omitempty"`
+	Loader *Loader `json:"loader,omitempty"`
 }
 
-var modNames = []string{"vhm0", "vhm1", "vhp.m2", "vhm3"}
+func (o IOp) coq() string {
+	switch o.Op {
+	case "openbase":
+		return "IOpenBase"
+	case "openpackage":
+		return "IOpenPackage"
+	case "openlib":
+		return fmt.Sprintf("IOpenLib %d", o.N)
+	case "register":
+		return fmt.Sprintf("IRegister %d %s", o.N, zlist(o.Fs))
+	case "preload":
+		k := "KLua"
+		if o.Loader.Kind == "go" {
+			k = "KGo"
+		}
+		return fmt.Sprintf("IPreload %d (mkLoader %s %s)", o.N, k, scriptCoq(o.Loader.Script))
+	}
+	panic("iop " + o.Op)
+}
+
+type in struct {
+	Init           []IOp `json:"init,omitempty"` // non-empty: SkipOpenLibs, these first
+	Ops            []Op  `json:"ops"`
+	AllowUnguarded bool  `json:"allow_unguarded,omitempty"` // hand-checked terminating corpus entries only
+}
+
+// ids 10..12 are the reserved names PKG, LSTRING, LTABLE of the model
+var modNames = []string{"vhm0", "vhm1", "vhp.m2", "vhm3", "vhm4", "vhm5", "vhm6", "vhm7", "vhm8", "vhm9",
+	"package", "string", "table"}
 
 const nDirs = 3
 
@@ -228,6 +259,8 @@ func (e *errT) coq() string {
 		return "(EConflict " + n + ")"
 	case "modgo":
 		return "EModGo"
+	case "nopkg":
+		return "ENoPackage"
 	}
 	return "EOther"
 }
@@ -488,6 +521,9 @@ func (r *runT) classify(msg string) *errT {
 	if i := strings.Index(msg, "vhfail:"); i >= 0 {
 		return &errT{Class: "fail", N: nameID(firstLine(msg[i+7:]))}
 	}
+	if strings.Contains(msg, "with key 'preload'") || strings.Contains(msg, "package.preload must be a table") {
+		return &errT{Class: "nopkg"}
+	}
 	if strings.Contains(msg, "module() can not be called from GFunctions") {
 		return &errT{Class: "modgo"}
 	}
@@ -599,6 +635,11 @@ func guarded(sc []Action) bool {
 }
 
 func inputGuarded(x in) bool {
+	for _, o := range x.Init {
+		if o.Loader != nil && !guarded(o.Loader.Script) {
+			return false
+		}
+	}
 	for _, o := range x.Ops {
 		if o.Loader != nil && !guarded(o.Loader.Script) {
 			return false
@@ -612,9 +653,124 @@ func inputGuarded(x in) bool {
 
 // ---------- one case ----------
 
+func hostFuncs(fs []int) map[string]lua.LGFunction {
+	funcs := map[string]lua.LGFunction{}
+	for _, f := range fs {
+		funcs[fmt.Sprintf("hf%d", f)] = func(L *lua.LState) int { return 0 }
+	}
+	return funcs
+}
+
+// runs a host call that yields a module table under a protected call; observes the table's
+// identity and which of the host functions hf0..hf3 it has, or the error class
+func (r *runT) protectedTable(f func(L *lua.LState) lua.LValue) obsT {
+	L := r.L
+	top := L.GetTop()
+	err := L.CallByParam(lua.P{Fn: L.NewFunction(func(L *lua.LState) int {
+		L.Push(f(L))
+		return 1
+	}), NRet: 1, Protect: true})
+	ob := obsT{Kind: "reg", Present: []int{}}
+	if err != nil {
+		ob.Err = r.classify(errText(err))
+	} else {
+		v := L.Get(-1)
+		ob.Val = r.val(v)
+		if tb, ok := v.(*lua.LTable); ok {
+			for f := 0; f < 4; f++ {
+				if tb.RawGetString(fmt.Sprintf("hf%d", f)) != lua.LNil {
+					ob.Present = append(ob.Present, f)
+				}
+			}
+		}
+	}
+	L.SetTop(top)
+	return ob
+}
+
+func openLib(name string, f lua.LGFunction) func(L *lua.LState) lua.LValue {
+	return func(L *lua.LState) lua.LValue {
+		L.Push(L.NewFunction(f))
+		L.Push(lua.LString(name))
+		L.Call(1, 1)
+		v := L.Get(-1)
+		L.Pop(1)
+		return v
+	}
+}
+
+// the initialisation phase of a host that opens libraries itself
+func (r *runT) runInit(init []IOp) (obs []obsT, fail string) {
+	L := r.L
+	pkgOpen, baseOpen := false, false
+	for _, o := range init {
+		switch o.Op {
+		case "openbase":
+			openLib(lua.BaseLibName, lua.OpenBase)(L)
+			baseOpen = true
+			obs = append(obs, obsT{Kind: "none"})
+		case "openpackage":
+			ob := r.protectedTable(openLib(lua.LoadLibName, lua.OpenPackage))
+			if ob.Err == nil {
+				pkgOpen = true
+				L.SetField(L.GetGlobal("package"), "path", lua.LString(r.env.pathString([]int{0, 1})))
+			}
+			obs = append(obs, ob)
+		case "openlib":
+			switch modNames[o.N] {
+			case "string":
+				obs = append(obs, r.protectedTable(openLib(lua.StringLibName, lua.OpenString)))
+			case "table":
+				obs = append(obs, r.protectedTable(openLib(lua.TabLibName, lua.OpenTable)))
+			default:
+				panic("openlib " + modNames[o.N])
+			}
+		case "register":
+			fs, name := o.Fs, modNames[o.N]
+			obs = append(obs, r.protectedTable(func(L *lua.LState) lua.LValue { return L.RegisterModule(name, hostFuncs(fs)) }))
+		case "preload":
+			name, ld := modNames[o.N], o.Loader
+			var ob obsT
+			if ld.Kind == "go" {
+				ob = r.protectedTable(func(L *lua.LState) lua.LValue { L.PreloadModule(name, r.goLoader(ld.Script)); return lua.LNil })
+			} else {
+				ob = r.protectedTable(func(L *lua.LState) lua.LValue {
+					// the Lua-side equivalent: package.preload[name] = f (raw API, no base library needed)
+					fn, err := L.LoadString(luaPrelude + "return function(...)\n" + luaBody(ld.Script, "pre") + "end\n")
+					if err != nil {
+						panic(err)
+					}
+					L.Push(fn)
+					L.Call(0, 1)
+					f := L.Get(-1)
+					L.Pop(1)
+					L.SetField(L.GetField(L.GetGlobal("package"), "preload"), name, f)
+					return lua.LNil
+				})
+			}
+			if ob.Err != nil {
+				obs = append(obs, obsT{Kind: "res", Err: ob.Err})
+			} else {
+				obs = append(obs, obsT{Kind: "none"})
+			}
+		default:
+			panic("unknown init op " + o.Op)
+		}
+	}
+	if !pkgOpen || !baseOpen {
+		return obs, "unsupported"
+	}
+	return obs, ""
+}
+
 func runHistory(env *envT, x in) (obs []obsT, fail string) {
 	env.resetFiles()
-	L := lua.NewState()
+	var L *lua.LState
+	if len(x.Init) > 0 {
+		L = lua.NewState(lua.Options{SkipOpenLibs: true})
+	} else {
+		L = lua.NewState()
+	}
 	defer L.Close()
 	r := &runT{L: L, env: env, canon: map[*lua.LTable]int{}}
 	defer func() {
@@ -626,12 +782,21 @@ func runHistory(env *envT, x in) (obs []obsT, fail string) {
 			fail = "Go panic escaped: " + s
 		}
 	}()
-	pkg := L.GetGlobal("package")
-	L.SetField(pkg, "path", lua.LString(env.pathString([]int{0, 1})))
 	L.SetGlobal("vh_emit", L.NewFunction(func(L *lua.LState) int {
 		r.emit(L.CheckString(1), L.CheckString(2))
 		return 0
 	}))
+	if len(x.Init) > 0 {
+		o, f := r.runInit(x.Init)
+		obs = o
+		if f != "" {
+			return obs, f
+		}
+	}
+	pkg := L.GetGlobal("package")
+	if len(x.Init) == 0 {
+		L.SetField(pkg, "path", lua.LString(env.pathString([]int{0, 1})))
+	}
 	requireFn := L.GetGlobal("require")
 	for _, o := range x.Ops {
 		switch o.Op {
@@ -700,32 +865,9 @@ func runHistory(env *envT, x in) (obs []obsT, fail string) {
 		case "getloaded":
 			obs = append(obs, obsT{Kind: "val", Val: r.val(L.GetField(L.GetField(pkg, "loaded"), modNames[o.N]))})
 		case "register":
-			funcs := map[string]lua.LGFunction{}
-			for _, f := range o.Fs {
-				funcs[fmt.Sprintf("hf%d", f)] = func(L *lua.LState) int { return 0 }
-			}
+			fs := o.Fs
 			name := modNames[o.N]
-			top := L.GetTop()
-			err := L.CallByParam(lua.P{Fn: L.NewFunction(func(L *lua.LState) int {
-				L.Push(L.RegisterModule(name, funcs))
-				return 1
-			}), NRet: 1, Protect: true})
-			ob := obsT{Kind: "reg", Present: []int{}}
-			if err != nil {
-				ob.Err = r.classify(errText(err))
-			} else {
-				v := L.Get(-1)
-				ob.Val = r.val(v)
-				if tb, ok := v.(*lua.LTable); ok {
-					for f := 0; f < 4; f++ {
-						if tb.RawGetString(fmt.Sprintf("hf%d", f)) != lua.LNil {
-							ob.Present = append(ob.Present, f)
-						}
-					}
-				}
-			}
-			L.SetTop(top)
-			obs = append(obs, ob)
+			obs = append(obs, r.protectedTable(func(L *lua.LState) lua.LValue { return L.RegisterModule(name, hostFuncs(fs)) }))
 		default:
 			panic("unknown op " + o.Op)
 		}
@@ -750,6 +892,9 @@ func classOf(x in, obs []obsT) (class string, nontrivial bool) {
 			set["reg"] = true
 		}
 	}
+	if len(x.Init) > 0 {
+		set["init"] = true
+	}
 	for _, o := range x.Ops {
 		if o.Loader != nil && o.Loader.Kind == "go" {
 			set["goloader"] = true
@@ -763,7 +908,7 @@ func classOf(x in, obs []obsT) (class string, nontrivial bool) {
 		ks = append(ks, k)
 	}
 	sort.Strings(ks)
-	return strings.Join(ks, "+"), nreq >= 2 && ninv >= 1
+	return strings.Join(ks, "+"), nreq >= 2 && (ninv >= 1 || len(x.Init) > 0)
 }
 
 func runCase(w *lib.Writer, env *envT, x in) {
@@ -772,6 +917,10 @@ func runCase(w *lib.Writer, env *envT, x in) {
 		return
 	}
 	obs, fail := runHistory(env, x)
+	if fail == "unsupported" {
+		w.Meta.Discarded++
+		return
+	}
 	if fail != "" {
 		// the model has no observation for this; record the failure against a placeholder case
 		id := w.Add(lib.Case{Coq: "CHist [] []", Input: x, Observed: fail, Class: "gofail"})
@@ -788,13 +937,24 @@ func runCase(w *lib.Writer, env *envT, x in) {
 	}
 	class, nt := classOf(x, obs)
 	w.Add(lib.Case{
-		Coq:        "CHist " + lib.CoqList(ops) + " " + lib.CoqList(os_),
+		Coq:        caseHead(x) + lib.CoqList(ops) + " " + lib.CoqList(os_),
 		Input:      x,
 		Observed:   obs,
 		Class:      class,
 		Nontrivial: nt,
 		KF:         []string{},
 	})
+}
+
+func caseHead(x in) string {
+	if len(x.Init) == 0 {
+		return "CHist "
+	}
+	it := make([]string, len(x.Init))
+	for i, o := range x.Init {
+		it[i] = o.coq()
+	}
+	return "CInit " + lib.CoqList(it) + " "
 }
 
 func replay(w *lib.Writer, env *envT, path string) {
